@@ -20,6 +20,12 @@ Features == <<
   [label |-> "absolute-set-twice",  f |-> <<R("absolute", 3, "set", "p0r1", "5"), R("absolute", 7, "set", "p0r1", "9")>>, obs |-> ObsReg("p0r1")],
   [label |-> "absolute-set-two-objects", f |-> <<R("absolute", 3, "set", "p0r1", "5"), R("absolute", 3, "set", "p0r2", "9")>>, obs |-> ObsReg("p0r1") \o ObsReg("p0r2")],
   [label |-> "absolute-set-input",  f |-> <<R("absolute", 3, "set", "i0", "5")>>, obs |-> ObsIn],
+  [label |-> "absolute-set-second-input", f |-> <<R("absolute", 3, "set", "i1", "5")>>,
+     obs |-> <<R("relative", 1, "get", "i1", "unsigned"), R("onvalid", 0, "show", "i1", "unsigned"), R("onvalid", 0, "show", "i0", "unsigned")>>],
+  [label |-> "absolute-set-register-then-input", f |-> <<R("absolute", 3, "set", "p0r1", "5"), R("absolute", 5, "set", "i0", "9")>>,
+     obs |-> ObsReg("p0r1") \o <<R("relative", 1, "get", "i0", "unsigned"), R("onvalid", 0, "show", "i0", "unsigned"), R("onvalid", 0, "show", "i1", "unsigned")>>],
+  [label |-> "absolute-set-inputs-reversed", f |-> <<R("absolute", 2, "set", "i1", "5"), R("absolute", 6, "set", "i0", "9")>>,
+     obs |-> <<R("onvalid", 0, "show", "i0", "unsigned"), R("onvalid", 0, "show", "i1", "unsigned"), R("relative", 1, "get", "i0", "unsigned"), R("relative", 1, "get", "i1", "unsigned")>>],
   [label |-> "relative-set",        f |-> <<R("relative", 2, "set", "p0r1", "5")>>, obs |-> ObsReg("p0r1")],
   [label |-> "absolute-get",        f |-> <<R("absolute", 3, "get", "o0", "unsigned")>>, obs |-> <<>>],
   [label |-> "absolute-get-reg",    f |-> <<R("absolute", 7, "get", "p0r0", "unsigned")>>, obs |-> <<>>],
